@@ -7,6 +7,7 @@
 mod c01;
 mod c02;
 mod c03;
+mod c05;
 mod c08;
 mod tiered;
 mod c13;
@@ -63,6 +64,7 @@ fn main() {
             "C13" => c13::replay(&plan, &mut sum),
             "C03" => c03::replay(&plan, &mut sum),
             "C08" => c08::replay(&plan, &mut sum),
+            "C05" => c05::replay(&plan, &mut sum),
             _ => Err(format!("unknown check {}", check)),
         };
         if let Err(e) = r {
@@ -76,6 +78,7 @@ fn main() {
             "C13" => c13::run_batch(seed, start, count, &tier, budget_ms, &mut sum),
             "C03" => c03::run_batch(seed, start, count, &tier, budget_ms, &mut sum),
             "C08" => c08::run_batch(seed, start, count, &tier, budget_ms, &mut sum),
+            "C05" => c05::run_batch(seed, start, count, &tier, budget_ms, &mut sum),
             _ => {
                 eprintln!("unknown check {}", check);
                 status = 2;
